@@ -112,6 +112,7 @@ class Engine:
         self.inlined = set()
         self.used_models = set()
         self.stats = {"paths": 0, "branches": 0, "feas_checks": 0}
+        self.use_pool = os.environ.get("VERIF_POOL", "0") == "1"
         self.reset([])
 
     # -------------------------------------------------------------- path state
@@ -120,6 +121,7 @@ class Engine:
         self.solver.reset()
         self.solver.set("timeout", 5000)
         self.bounds = {}
+        self.mpool = []                   # models of the current path condition (feasibility cache)
         self.tbounds = {}                 # term id -> (term, (lo, hi)) facts recorded by operator models
         self.decisions = list(prefix)
         self.dpos = 0
@@ -151,6 +153,8 @@ class Engine:
         self.pc.append(cond)
         self.solver.add(cond)
         self._learn_bounds(cond)
+        if self.mpool:
+            self.mpool = [m for m in self.mpool if z3.is_true(m.eval(cond, model_completion=True))]
 
     # cheap interval facts about symbols, gleaned from assumed comparisons (used before asking the solver)
     def _learn_bounds(self, cond):
@@ -261,10 +265,22 @@ class Engine:
         return t
 
     def feasible(self, cond):
+        """Is PC and cond satisfiable?  Answered from the pool of models of the current PC when possible."""
+        for m in (self.mpool if self.use_pool else ()):
+            if z3.is_true(m.eval(cond, model_completion=True)):
+                self.stats["pool_hits"] = self.stats.get("pool_hits", 0) + 1
+                return True
         self.stats["feas_checks"] += 1
         self.solver.push()
         self.solver.add(cond)
         r = self.solver.check()
+        if r == z3.sat and self.use_pool:
+            try:
+                self.mpool.append(self.solver.model())
+                if len(self.mpool) > 6:
+                    self.mpool.pop(0)
+            except z3.Z3Exception:
+                pass
         self.solver.pop()
         return r != z3.unsat
 
@@ -285,7 +301,8 @@ class Engine:
             self.dpos += 1
         else:
             ft = self.feasible(cond)
-            ff = self.feasible(z3.Not(cond))
+            # the path condition is satisfiable, so when cond is infeasible its negation is feasible
+            ff = self.feasible(z3.Not(cond)) if ft else True
             if ft and ff:
                 self.new_prefixes.append(self.decisions + [False])
                 d = True
